@@ -985,6 +985,10 @@ class Executor:
                 if outcome is not NotImplemented:
                     handled = True
                     break
+        if not handled and ret_bb is not None:
+            ho = self.higher_order(fn, st, fid, dest, cname, args, ret_bb, stack)
+            if ho:
+                return None
         if not handled:
             outcome = self.builtin(st, cname, args, dest_ty)
             handled = outcome is not NotImplemented
@@ -1025,6 +1029,74 @@ class Executor:
             return ret_bb
         self.write_place(st, fid, dest, outcome)
         return ret_bb
+
+    # ---- closures ---------------------------------------------------------------------------------
+    def closure_fn(self, v):
+        """MIR body of a closure value (aggregate or zero-sized constant), if it is in the dump"""
+        text = v.variant if isinstance(v, Agg) and v.ty == "closure" else (v.text if isinstance(v, Const) else None)
+        if not text:
+            return None
+        m = re.search(r"\{closure@[^}]*\}", text)
+        if not m:
+            return None
+        cid = m.group(0)
+        for f in self.fns.values():
+            if f.args and cid in f.args[0][1] and "{closure#" in f.name:
+                return f
+        return None
+
+    def call_closure(self, fn, st, fid, dest, clo, cargs, ret_bb, stack, wrap=None):
+        """inline closure `clo` applied to cargs; its result is written to dest, then ret_bb continues"""
+        target = self.closure_fn(clo)
+        if target is None or len(stack) >= self.max_depth:
+            return False
+        self.stats["inlined"] += 1
+        nfid = self.new_frame(st)
+        first_ty = target.args[0][1]
+        if is_ref_type(first_ty):
+            cell = st.new_cell(clo)
+            st.frames[nfid][target.args[0][0]] = Ref(("heap", cell), (), "mut " in first_ty[:12])
+        else:
+            st.frames[nfid][target.args[0][0]] = clo
+        rest = target.args[1:]
+        if len(rest) == 1 and len(cargs) != 1:
+            st.frames[nfid][rest[0][0]] = Agg("tuple", None, list(cargs))
+        else:
+            for (local, ty), a in zip(rest, cargs):
+                st.frames[nfid][local] = a
+        self.exec_block(target, st, nfid, "bb0", stack + [(fn, fid, dest, ret_bb)], None)
+        return True
+
+    def higher_order(self, fn, st, fid, dest, cname, args, ret_bb, stack):
+        """std combinators whose closure argument is executed from its own MIR"""
+        m = re.search(r"Option::<.*>::(is_some_and|is_none_or)::<", cname)
+        if m and len(args) == 2 and self.closure_fn(args[1]) is not None:
+            opt, clo = args
+            none_val = BoolV(z3.BoolVal(m.group(1) == "is_none_or"))
+            if isinstance(opt, Agg):
+                if opt.variant == "None":
+                    self.write_place(st, fid, dest, none_val)
+                    self.exec_block(fn, st, fid, ret_bb, stack, None)
+                    return True
+                return self.call_closure(fn, st, fid, dest, clo, [opt.fields[0]], ret_bb, stack)
+            d = self.discriminant(st, opt)
+            c_none = d.term == z3.BitVecVal(0, USIZE)
+            c_some = d.term == z3.BitVecVal(1, USIZE)
+            did = False
+            if self.feasible(st, c_none):
+                s2 = st.fork()
+                s2.pc.append(c_none)
+                self.write_place(s2, fid, dest, none_val)
+                self.exec_block(fn, s2, fid, ret_bb, stack, None)
+                did = True
+            if self.feasible(st, c_some):
+                st.pc.append(c_some)
+                payload = LazyPayload(self, st, opt, "Some")[0]
+                if not self.call_closure(fn, st, fid, dest, clo, [payload], ret_bb, stack):
+                    raise Unsupported("closure body of %s not found" % cname)
+                did = True
+            return True if did else False
+        return False
 
     def lookup_fn(self, cname):
         if cname in self.fns:
